@@ -1,5 +1,7 @@
 (* C16 -- JUnit report is well-formed XML and faithful to the run.  Only statements; proofs are in C16_Escape.v, C16_Parse.v, C16_Proofs.v. *)
 From Coq Require Import NArith Bool List.
+From Coq Require String.
+Import String.StringSyntax.
 From CppUVerif Require Import lib.Str gen.Gen_C16 C16_Events C16_Model C16_Escape C16_Parse C16_Proofs.
 Import ListNotations.
 Local Open Scope N_scope.
@@ -34,14 +36,38 @@ Theorem C16_registry_order : forall ts, events_of ts = flat_map seg_events (segm
 Proof. exact reg_loop_segments. Qed.
 Print Assumptions C16_registry_order.
 
+(* the same loop with calls from outside (setPackageName, createFileName) put in front of a test's callbacks: the callbacks are
+   those of the registry loop, the segments those of the plain run, and the loop brackets the segments in the same way *)
+Theorem C16_outside_calls_keep_callbacks : forall ts b, je_only (oreg_loop b ts) = reg_loop b (map snd ts).
+Proof. exact oreg_loop_callbacks. Qed.
+Print Assumptions C16_outside_calls_keep_callbacks.
+
+Theorem C16_outside_calls_keep_segments : forall ts, map (map snd) (osegments ts) = segments (map snd ts).
+Proof. exact osegments_map. Qed.
+Print Assumptions C16_outside_calls_keep_segments.
+
+Theorem C16_registry_order_with_outside_calls : forall ts, oreg_loop true ts = flat_map oseg_events (osegments ts).
+Proof. exact oreg_loop_segments. Qed.
+Print Assumptions C16_registry_order_with_outside_calls.
+
+(* the package at a time is the argument of the latest setPackageName before it; createFileName calls do not change it *)
+Theorem C16_package_latest_wins : forall before p after P,
+  existsb is_set after = false -> ops_pkg P (before ++ OSetPkg p :: after) = p.
+Proof. exact ops_pkg_latest. Qed.
+Print Assumptions C16_package_latest_wins.
+
 (* the XML parser run on anything printed from a well-formed writer tree returns that tree (inside an open element) *)
 Theorem C16_parse_print : forall p, ptree_ok p = true -> parses p.
 Proof. exact parses_all. Qed.
 Print Assumptions C16_parse_print.
 
-(* round trip: every run over printable text writes one file per group, named by the rule, and each file parses to tree_of *)
+(* round trip: every run over printable text, with setPackageName / createFileName called at any points (before the run, before any
+   test, after the run), writes one file per group, named by the rule from the package in force when the group ended (trees_of threads
+   group_pkg), and each file parses to tree_of; every createFileName call is answered by the rule from the package of its moment,
+   whatever was written in between (ops_names over all outside calls in call order) *)
 Theorem C16_roundtrip : forall s, valid s = true ->
-  map (fun f => (fst f, xml_parse (snd f))) (run s) = trees_of (s_pkg s) (segments (s_tests s)) [].
+  map (fun f => (fst f, xml_parse (snd f))) (fst (run s)) = trees_of [] (osegments (s_tests s)) []
+  /\ snd (run s) = ops_names [] (flat_map fst (s_tests s) ++ s_post s).
 Proof. exact roundtrip. Qed.
 Print Assumptions C16_roundtrip.
 
@@ -69,6 +95,14 @@ Proof. exact value_rejects_lt. Qed.
 Print Assumptions C16_parser_rejects_lt_in_value.
 
 Theorem C16_hypotheses_satisfiable :
-  valid example_run = true /\ length (run example_run) = 2%nat /\ spec example_run (run example_run) = true.
+  valid example_run = true /\ length (fst (run example_run)) = 2%nat /\ spec example_run (run example_run) = true.
 Proof. exact example_valid. Qed.
 Print Assumptions C16_hypotheses_satisfiable.
+
+(* the example run asks for a name before any package is set, sets the package late, changes it inside and between the groups and
+   after the run: answers and file names follow the package of each moment *)
+Theorem C16_example_names_follow_package :
+  snd (run example_run) = [B "cpputest_G_.xml"%string; B "cpputest_q_H.xml"%string; B "cpputest_H.xml"%string; B "cpputest___H.xml"%string]
+  /\ map fst (fst (run example_run)) = [B "cpputest_q_G_.xml"%string; B "cpputest_H.xml"%string].
+Proof. exact example_names. Qed.
+Print Assumptions C16_example_names_follow_package.
